@@ -54,10 +54,13 @@ func (f *StringRepeat) Call(s *slip.Scope, args slip.List, depth int) slip.Objec
 	} else {
 		slip.TypePanic(s, depth, "string", args[0], "string")
 	}
-	if num, ok := args[1].(slip.Fixnum); ok {
+	if num, ok := args[1].(slip.Fixnum); ok && 0 <= num && num <= slip.ArrayMaxDimension {
 		count = int(num)
 	} else {
-		slip.TypePanic(s, depth, "count", args[1], "fixnum")
+		slip.TypePanic(s, depth, "count", args[1], "non-negative fixnum no larger than array-dimension-limit")
+	}
+	if 0 < len(str) && slip.ArrayMaxDimension/len(str) < count {
+		slip.ErrorPanic(s, depth, "a string of %d repeats of %d bytes is too large", count, len(str))
 	}
 	return slip.String(strings.Repeat(str, count))
 }
